@@ -277,13 +277,12 @@ class CoordinateList(CompressionFormat):
     # get size of representation
     def getSize(self): 
         # self.printFiber()
-        if self.next_fmt != None and self.next_fmt.encodeUpperPayload():
-            assert(len(self.payloads) > 0)
-
         size = len(self.coords) + len(self.occupancies)
-        # Don't need to store occupancies if lower level is U
-        # if not isinstance(self.payloads[0], CompressionFormat):
-        size += len(self.payloads) 
+        # The payloads of a non-leaf fiber are its children: the words it
+        # stores for them are the occupancies counted above (none at all
+        # if the lower level is U)
+        if self.next_fmt == None:
+            size += len(self.payloads)
         return size
 
     #### static methods
